@@ -32,6 +32,11 @@ for _u in list(UNITS.get("C01", [])):
 for _u in list(UNITS.get("C03", [])):
     if _u["name"].startswith("nonparametric.aggregate_intervals."):
         UNITS.setdefault("C02", []).append(dict(_u, prop="C02", name=_u["name"]))
+# "for the nonparametric estimator the same identity holds for the lower and upper bounds" -- also for the SECOND level
+# requested on one model object (units defined next to the function in contracts/C03.py)
+for _u in list(UNITS.get("C13", [])):
+    if _u["name"].startswith("nonparametric.aggregate_intervals_of_a_second_level.") and not any(x["name"] == _u["name"] for x in UNITS.get("C02", [])):
+        UNITS.setdefault("C02", []).append(dict(_u, prop="C02"))
 # the bootstrap estimator's aggregate predictions (turnout = sum of unit turnout, margin = sum of unit margins over
 # turnout, interval rows aligned with the estimates table): the C06 units, registered here as well
 import contracts.C06 as _c06  # noqa: E402,F401
